@@ -518,8 +518,8 @@ def replay_metrics(inputs):
     cum = np.cumsum(steps, axis=0)
     dist = np.linalg.norm(cum @ lat.matrix, axis=-1).T
 
-    def close(a, b, what, rtol=1e-9):
-        if not np.allclose(a, b, rtol=rtol, atol=0, equal_nan=True):  # the mean frequency of an atom that never moves is 0/0 in both representations
+    def close(a, b, what, rtol=1e-9, atol=0.0):
+        if not np.allclose(a, b, rtol=rtol, atol=atol, equal_nan=True):  # the mean frequency of an atom that never moves is 0/0 in both representations
             bad.append(f'{what}: {a} != {b}')
     rho = N / (lat.volume * 1e-30)
     close(float(m.particle_density()), rho, 'particle_density')
@@ -535,7 +535,7 @@ def replay_metrics(inputs):
     Dcom = dcom[-1] ** 2 * 1e-20 / (2 * 3 * T * dt)
     close(float(m.tracer_diffusivity_center_of_mass(dimensions=3)), Dcom, 'tracer_diffusivity_center_of_mass', rtol=1e-7)
     close(float(m.haven_ratio(dimensions=3)), float(m.tracer_diffusivity(dimensions=3)) / Dcom, 'haven_ratio', rtol=1e-7)
-    close(m.speed(), np.diff(dist, prepend=0), 'speed')
+    close(m.speed(), np.diff(dist, prepend=0), 'speed', atol=1e-9 * float(np.abs(dist).max() or 1.0))  # differences of nearly equal distances: absolute scale
     amps = m.amplitudes()
     close(amps.sum(), dist[:, -1].sum(), 'sum of amplitudes = sum of final distances', rtol=1e-8)
     amps0, speed0 = np.array(amps, copy=True), np.array(m.speed(), copy=True)
